@@ -194,7 +194,8 @@ pub fn exec(func: &str, a: &mut Args) -> String {
             };
             // auxiliary scalars that tell the oracle whether the configuration is near-touching
             let dist = query::distance(&p1, &*g1, &p2, &*g2).unwrap_or(f64::NAN);
-            format!("{} ; {} ; {} ; {}", run(&p1, &*g1, &p2, &*g2), run(&p2, &*g2, &p1, &*g1), run(&q1, &*g1, &q2, &*g2), ff(dist))
+            let depth = match query::contact(&p1, &*g1, &p2, &*g2, 0.0) { Ok(Some(c)) => c.dist, _ => f64::NAN };
+            format!("{} ; {} ; {} ; {} {}", run(&p1, &*g1, &p2, &*g2), run(&p2, &*g2, &p1, &*g1), run(&q1, &*g1, &q2, &*g2), ff(dist), ff(depth))
         }
         _ => "nofn".into(),
     }
@@ -301,6 +302,63 @@ pub fn gen(r: &mut Rng, thorough: bool) -> Vec<(String, String)> {
                 v.push(("q_it".into(), sw.clone()));
                 v.push(("q_cp".into(), format!("{} {}", sw, hx(par))));
             }
+        }
+        // ---- result helpers
+        {
+            let c = Contact::new(d3::gen_p(r, lat, 50.0), d3::gen_p(r, lat, 50.0), na::Unit::new_unchecked(gen_normal(r, lat)), na::Unit::new_unchecked(gen_normal(r, lat)), r.coord(lat, 10.0));
+            v.push(("contact_flipped".into(), hcontact(&c)));
+            v.push(("contact_transform_by".into(), format!("{} {} {}", hcontact(&c), d3::hiso(&m), d3::hiso(&m2))));
+            let cp = match r.below(4) { 0 => "intersecting".to_string(), 1 => "disjoint".to_string(), _ => format!("within {} {}", d3::hp(&c.point1), d3::hp(&c.point2)) };
+            v.push(("cp_flipped".into(), cp.clone()));
+            v.push(("cp_transform_by".into(), format!("{} {} {}", cp, d3::hiso(&m), d3::hiso(&m2))));
+            v.push(("hit_swapped".into(), format!("{} {} {}", hx(r.uniform(0.0, 10.0)), hcontact(&c).rsplitn(2, ' ').nth(1).unwrap(), r.below(4))));
+        }
+        // ---- support maps (ball, cuboid), unit and non-unit directions, zero components
+        for _ in 0..2 {
+            let s = gen_shape(r, lat, &[0, 1]);
+            let mut d = gen_normal(r, lat);
+            if r.below(3) == 0 { d *= r.logu(1e-3, 1e3); }
+            let a = format!("{} {} {}", hsh(&s), d3::hiso(&m), d3::hv(&d));
+            v.push(("support_toward".into(), a.clone()));
+            v.push(("support".into(), a));
+        }
+        // ---- mirrored wrappers over the tabulated canonical sibling (ball vs cuboid)
+        for _ in 0..2 {
+            let rad = r.pos_extent(lat).min(20.0);
+            let cub = Sh::Cuboid(d3::gen_he(r, lat));
+            let (_, _, mut pos12) = gen_poses(r, lat, &Sh::Ball(rad), &cub);
+            if r.below(6) == 0 { // ball centre inside / on the boundary of the cuboid
+                if let Sh::Cuboid(he) = &cub { pos12.translation.vector = -(pos12.rotation * Vector::new(he.x * *r.pick(&[0.0, 0.5, 1.0]), he.y * *r.pick(&[0.0, 0.25, 1.0]), he.z * *r.pick(&[0.0, 0.5, 1.0]))); }
+            }
+            let par = gen_param(r, lat);
+            let pinv = pos12.inverse();
+            let (ball, cs) = (Ball::new(rad), dynsh(&cub));
+            let base = format!("{} {} {}", hx(rad), hsh(&cub), d3::hiso(&pos12));
+            let canon = details::contact_convex_polyhedron_ball(&pinv, &*cs, &ball, par);
+            v.push(("w_contact_ball_cp".into(), format!("{} {} {} {}", base, hx(par), d3::hiso(&pinv), hcontact_opt(&canon))));
+            v.push(("w_cp_ball_cp".into(), format!("{} {} {} {}", base, hx(par), d3::hiso(&pinv), hcontact_opt(&canon))));
+            let canon2 = details::contact_convex_polyhedron_ball(&pos12, &*cs, &ball, par);
+            v.push(("w_cp_cp_ball".into(), format!("{} {} {}", base, hx(par), hcontact_opt(&canon2))));
+            let cd = details::distance_convex_polyhedron_ball(&pinv, &*cs, &ball);
+            v.push(("w_distance_ball_cp".into(), format!("{} {} {}", base, d3::hiso(&pinv), hx(cd))));
+            let ci = details::intersection_test_point_query_ball(&pinv, &*cs, &ball);
+            v.push(("w_it_ball_pq".into(), format!("{} {} {}", base, d3::hiso(&pinv), b(ci))));
+        }
+        // ---- oracle-only: the real dispatcher on any supported pair, both orders and under a common isometry
+        for _ in 0..3 {
+            let all: [u8; 6] = [0, 1, 2, 3, 4, 5];
+            let (s1, s2) = loop {
+                let s1 = gen_shape(r, lat, &all); let s2 = gen_shape(r, lat, &all);
+                if !matches!((&s1, &s2), (Sh::HalfSpace(_), Sh::HalfSpace(_))) { break (s1, s2); }
+            };
+            let (p1, p2, _) = gen_poses(r, lat, &s1, &s2);
+            let glat = lat && r.bool(); let g = d3::gen_iso(r, glat, 100.0);
+            let par = gen_param(r, lat);
+            let sw = format!("{} {} {} {} {}", hsh(&s1), d3::hiso(&p1), hsh(&s2), d3::hiso(&p2), d3::hiso(&g));
+            v.push(("o_contact".into(), format!("{} {}", sw, hx(par))));
+            v.push(("o_cp".into(), format!("{} {}", sw, hx(par))));
+            v.push(("o_distance".into(), sw.clone()));
+            v.push(("o_it".into(), sw));
         }
     }
     v
